@@ -129,22 +129,26 @@ theorem Seg.if_heads (c u : Nat) : Seg c (c + 1) u u [FL.x ⟨.else_, c⟩, FL.x
 theorem defsF_cons_jcc (c : CC) (l : FL) (r : List FI) : defsF (FI.jcc c l :: r) = defsF r := rfl
 theorem defsF_cons_ins (i : Ins) (r : List FI) : defsF (FI.ins i :: r) = defsF r := rfl
 
-theorem defsF_caseTest (t : ITy) (cv : Int) (l : Nat) : defsF (caseTest t cv l) = [] := by
-  unfold caseTest
-  split
-  · split <;> rfl
-  · rfl
+theorem defsF_map_ins (is : List Ins) : defsF (is.map FI.ins) = [] := by
+  induction is with
+  | nil => rfl
+  | cons i r ih => simpa [defsF] using ih
 
-theorem defsF_rungs (t : ITy) (ents : List (Option Int × Nat)) : defsF (rungs t ents) = [] := by
+theorem defsF_caseTest (t : ITy) (lo hi : Int) (l : Nat) : defsF (caseTest t lo hi l) = [] := by
+  unfold caseTest
+  repeat' split
+  all_goals rfl
+
+theorem defsF_rungs (t : ITy) (ents : List (Option (Int × Int) × Nat)) : defsF (rungs t ents) = [] := by
   induction ents with
   | nil => rfl
   | cons x r ih =>
     obtain ⟨o, l⟩ := x
     cases o with
     | none => simpa [rungs] using ih
-    | some cv => simp [rungs, defsF_append, ih, defsF_caseTest]
+    | some cv => obtain ⟨lo, hi⟩ := cv; simp [rungs, defsF_append, ih, defsF_caseTest]
 
-theorem defsF_ladder (t : ITy) (ents : List (Option Int × Nat)) (brk : Nat) : defsF (ladder t ents brk) = [] := by
+theorem defsF_ladder (t : ITy) (ents : List (Option (Int × Int) × Nat)) (brk : Nat) : defsF (ladder t ents brk) = [] := by
   unfold ladder
   rw [defsF_append, defsF_rungs, defsF_append]
   cases lastDefault ents <;> rfl
@@ -191,7 +195,7 @@ theorem compileF_fresh (tys : List ITy) (off toff : Nat → Int) (R : ITy) (s : 
     simp only [compileF, Option.map_eq_some_iff, Prod.mk.injEq] at h
     obtain ⟨_, _, rfl, _, rfl, rfl⟩ := h
     exact ⟨rfl, Seg.nil (Nat.le_refl _) (Nat.le_refl _)⟩
-  | case_ v s ih =>
+  | case_ lo hi s ih =>
     intro ctx k0 c0 u0 code k1 c1 u1 h
     simp only [compileF] at h
     split at h
